@@ -294,7 +294,10 @@ func c17Rate(t *tr.Writer, id int, c c17Case) {
 					n = 1
 				}
 				a, b, res := acquire(n)
-				t.Emit(tr.Rec{"ev": "acquire", "t0": a, "t1": b, "n": n, "res": res})
+				// cost and burst in microseconds, computed here (64-bit): at high rates a permit is a fraction
+				// of a microsecond and TLC's integers are 32-bit
+				t.Emit(tr.Rec{"ev": "acquire", "t0": a, "t1": b, "n": n, "res": res,
+					"cost": int(int64(n) * 1000000 / int64(c.Rate)), "burst": int(int64(c.MaxP) * 1000000 / int64(c.Rate))})
 			case "sleep":
 				time.Sleep(time.Duration(op.Us) * time.Microsecond)
 			}
@@ -432,6 +435,24 @@ func runC17(a Args) tr.Summary {
 		}
 		ops = append(ops, c17Op{Op: "quiesce"})
 		cases = append(cases, c17Case{Kind: "sem", Max: 1 + i%2, Timeout: 2500, Ops: ops})
+	}
+	// high rates, many tokens per request (what the IO handler does with request sizes): a permit takes a
+	// fraction of a microsecond, the requests still have to wait milliseconds
+	nHigh := 4
+	if a.Tier == "thorough" {
+		nHigh = 24
+	}
+	for i := 0; i < nHigh; i++ {
+		rate := []int{7000000, 300000000, 700000000, 45000000}[i%4]
+		var ops []c17Op
+		for j := 0; j < 5; j++ {
+			ms := 2 + rng.Intn(12) // the request costs this many milliseconds
+			ops = append(ops, c17Op{Op: "acquire", N: rate / 1000 * ms})
+			if rng.Intn(3) == 0 {
+				ops = append(ops, c17Op{Op: "sleep", Us: rng.Intn(3000)})
+			}
+		}
+		cases = append(cases, c17Case{Kind: "rate", Rate: rate, MaxP: 0, Timeout: 0, Ops: ops, Via: "acquire"})
 	}
 	for i := 0; i < nRate; i++ {
 		rate := []int{100, 200, 250, 500}[rng.Intn(4)]
